@@ -381,6 +381,19 @@ def directed():
       kind='savelater')
     S([X(KEEP, Save(['save'])), SC(0, ['save', '__builtins__']), DEL('save'), SC(0, [], ('a', tok('ctx', 'a#1'))),
        E(N('a'))], kind='savelater')
+    # save() of a value EQUAL to what the key holds but another object: the key is rebound to the very object
+    # passed (identity) - an in-place change of the saved object afterwards shows in context, one of the old does not
+    COPY_L = Comp(N('i'), [('i', N('L'), [])])
+    S([X(As('t', COPY_L), Save([], [('L', N('t'))]), Ex(App(N('t'), N('a')))), E(N('L')), E(App(N('L'), N('b')))],
+      kind='saveident')
+    S([X(As('old', N('L')), As('L', COPY_L), Save(['L']), Ex(App(N('old'), N('b'))), Ex(App(N('L'), N('a')))),
+       E(N('L'))], kind='saveident')
+    S([X(As('t', COPY_L), Save([], [('L', N('t')), ('keep', N('t')), ('was', N('L'))]), Ex(App(N('t'), N('y')))),
+       E(T(N('L'), N('keep'), N('was')))], kind='saveident')
+    S([X(As('t', T(N('a'), N('b'))), Save([], [('T2', N('t'))])), X(As('u', T(N('a'), N('b'))), Save([], [('T2', N('u'))]),
+       Ex(App(N('obs'), N('u')))), E(T(N('T2'), N('obs')))], kind='saveident')
+    S([blockA, SC(0, [], ('notes', tok('ctx', 'a'))), SC(0, [], ('L', ref(2))), E(App(N('L'), N('b'))), E(N('obs'))],
+      kind='saveident')
     # after a rehydration the function writes the Context object left behind (outside the model; monitors go on)
     S([blockA, RH('copy'), DEL('draft'), SC(0, [], ('count', 1)), E(N('draft'))], kind='savelater')
     return out
@@ -569,16 +582,17 @@ def check_impl_only(cases, sink):
     for case in cases:
         signal.setitimer(signal.ITIMER_REAL, 10)
         try:
-            obs, findings = (I.run_save_helper if case['kind'] == 'impl-only-save' else I.run_impl_only)(case)
+            obs, findings = (I.run_save_helper if case['kind'] == 'impl-only-save' else
+                             I.run_saveid if case['kind'] == 'impl-only-saveid' else I.run_impl_only)(case)
         except Hang:
             sink.violation(case, 'the evaluation did not return within 10 s',
-                           {'site': 'py.get_save' if case['kind'] == 'impl-only-save' else '_EvalNamespace',
+                           {'site': 'py.get_save' if case['kind'] != 'impl-only' else '_EvalNamespace',
                             'route': 'namespace-object-method', 'method': case['method'],
                             'effect': 'never-returned'}, None)
             continue
         finally:
             signal.setitimer(signal.ITIMER_REAL, 0)
-        sink.count(('impl-only:' if case['kind'] == 'impl-only-save' else 'impl-only:ns-method:') + case['method'])
+        sink.count(('impl-only:' if case['kind'] != 'impl-only' else 'impl-only:ns-method:') + case['method'])
         sink.count('impl-only:outcome:' + ('ok' if 'ok' in obs else obs['err']))
         sink.case(case, True)
         for detail, sig, o in findings:
@@ -643,7 +657,14 @@ def _worker(args):
 
 
 def run(env, res):
-    res.rule = ('pyimport source language: ~690 directed sessions over real throw-away packages (every single import form; '
+    res.rule = ('save() binds the identical object (stream 3, implementation only; monitor M12 by id() and type() on every save call of '
+                'every stream): ~100 directed + random py blocks saving, for a key the context already holds, a value EQUAL but '
+                'distinct (copies of lists / dicts / sets, 1 / 1.0 / True, 0 / False / 0.0 / -0.0 / 0j, Fraction, Decimal, equal '
+                'str / tuple / range built afresh, OrderedDict for dict, bytes for bytearray, frozenset for set, NaN), identical, '
+                'or unequal - by keyword, by name, through a helper, twice, by ** and through the kept save function after the '
+                'block - then an in-place change of the saved object and type-sensitive reads through !py, whole context '
+                '(types, aliasing) compared with plain Python exec; 5 directed model sessions (saveident). '
+                'pyimport source language: ~690 directed sessions over real throw-away packages (every single import form; '
                 'every ordered pair (x3 module choices, + same alias twice) and triple of item shapes plain / dotted / '
                 'dotted deeper / aliased x3 in ONE statement; missing modules at every position; from-forms: attribute, '
                 'sub-module, module alias attribute, pairs in both orders with / without asname, all names, missing, star, '
@@ -681,6 +702,8 @@ def run(env, res):
     sink.into(res)
     sink = Sink()
     check_impl_only(save_helper_stream(env.rng, env.n(250, 8000)), sink)
+    # impl-only stream 3: save() of values equal to / distinct from what the key holds (identity + type monitor M12)
+    check_impl_only(I.saveid_cases(env.rng, env.n(400, 12000)), sink)
     sink.into(res)
     sink = Sink()
     try:
@@ -720,7 +743,7 @@ def replay(env, res, case):
             check_import_cases(env.driver, [case], sink)
         finally:
             IM.close_all()
-    elif case.get('kind') in ('impl-only', 'impl-only-save'):
+    elif case.get('kind') in ('impl-only', 'impl-only-save', 'impl-only-saveid'):
         check_impl_only([case], sink)
     else:
         check_cases(env.driver, [I.render(case)], sink)
